@@ -119,13 +119,22 @@ def materialise(inst):
     return m
 
 
-def do_call(inst, m, options):
-    k = inst['kind']
-    if k in ('cpl', 'cp'):
+def prepare(inst, m):
+    """per-call argument set: cpl/cp get their own F object (it counts calls) whose stored start point
+    x0m is part of the arguments that must not change"""
+    if inst['kind'] in ('cpl', 'cp'):
         m = dict(m)
         F = gen.ConvexF(inst)
         F.keep_trace = False
         m['F'] = F
+        m['F.x0'] = F.x0m
+    return m
+
+
+def do_call(inst, m, options):
+    k = inst['kind']
+    if k in ('cpl', 'cp') and not isinstance(m.get('F'), gen.ConvexF):
+        m = prepare(inst, m)
     if k == 'gp':
         return gen.solve_gp(inst, m, options)
     if k == 'op':
@@ -416,7 +425,7 @@ def run_case(case, refs=None):
             for oi, op in enumerate(ops):
                 if op[0] == 'solve':
                     inst = insts[op[1]]
-                    m = shared[op[1]] if shared is not None else materialise(inst)
+                    m = prepare(inst, shared[op[1]] if shared is not None else materialise(inst))
                     kw = dict(op[2]) if op[2] is not None else None
                     img0 = O.image([m, kw])
                     snap0 = O.globals_snapshot()
